@@ -386,6 +386,8 @@ def m_e2e(ctx, case):
         acc += x
         if x and acc not in allends and acc < len(stream):
             mid = True
+    if case.get("burst") and any(x >= 8000 for x in data_sizes):
+        ctx.hit("e2e_read_of_8k_or_more")
     if mid:
         ctx.hit("e2e_midframe_boundary")
         if rec.get("injected"):
@@ -567,6 +569,15 @@ def cases(ctx):
             batches.append(b)
         batches.append([["%028X" % bits.es_frame(17, 5, rng.fill(24), rng.fill(56)), t + 1], ["%028X" % bits.es_frame(18, 0, rng.fill(24), rng.fill(56)), t + 2]])
         yield "netsource", {"batches": batches, "flood": total}
+    # end-to-end sessions with bursts: hundreds of frames written to the socket at once, so that single reads are as large
+    # as the transport delivers them (8 KiB for a zmq STREAM socket) and arrive on top of a carried-over partial frame
+    for k in range(ctx.share(4 if quick else 64)):
+        fmt, mk = (("beast", beast_specs), ("raw", raw_specs), ("sky", sky_specs))[(k + ctx.shard) % 3]
+        specs = mk(rng, rng.choice((700, 900)))
+        stream, ends_ = mk_stream(fmt, specs)[:2]
+        n = len(stream)
+        cuts = sorted(set([rng.randrange(50, 200), rng.randrange(9000, min(n - 1, 12000))]))
+        yield "e2e", {"kind": fmt, "specs": specs, "cuts": cuts, "delay": 0.05, "again_every": 0, "burst": 1}
     # end-to-end sessions
     for k in range(ctx.share(12 if quick else 400)):
         fmt, mk = (("beast", beast_specs), ("raw", raw_specs), ("sky", sky_specs))[(k + ctx.shard) % 3]
